@@ -149,17 +149,20 @@ Proof.
   unfold read_cpu_state in H. apply bind_ok in H. destruct H as [[[c1 w1] vbase] [Hr H]].
   apply read_sv_word_inv in Hr; [|exact Hc|lia].
   destruct Hr as (Hm1 & Hcb1 & Hcn1 & (xy & ch & Hd & Hv) & _).
-  rewrite mread_vcpu_base, of_le32_le32 in Hv by exact Hvcpu. inversion Hv; subst vbase. clear Hv.
+  rewrite dest_chip_plain in Hd by exact Hxy.
+  destruct (cassoc (x, y) (m_chips (w_m w))) as [ch0|] eqn:Ech; [|discriminate].
+  inversion Hd; subst xy ch. clear Hd.
+  pose proof (cassoc_Some_key _ _ _ Ech) as Hkey.
+  rewrite mread_vcpu_base, of_le32_le32 in Hv by exact (Hvcpu _ Hkey). inversion Hv; subst vbase. clear Hv.
   assert (Hc1 : ctrl_wf c1 (w_m w1)).
   { split; [rewrite Hcn1; exact (proj1 Hc)|right; rewrite Hcb1, Hm1; reflexivity]. }
   apply bind_ok in H. destruct H as [[[c2 w2] d] [Hr2 H]]. cbn [fst snd] in H.
   apply read_inv in Hr2; [|exact Hc1|rewrite Hm1; change vcpu_cpu_state_size with 1; lia].
   destruct Hr2 as (Hm2 & Hcb2 & Hcn2 & (xy2 & ch2 & Hd2 & Hdata) & _).
-  rewrite Hm1 in *. rewrite dest_chip_plain in Hd2 by exact Hxy.
-  destruct (cassoc (x, y) (m_chips (w_m w))) as [ch0|] eqn:Ech; [|discriminate].
+  rewrite Hm1 in *. rewrite dest_chip_plain in Hd2 by exact Hxy. rewrite Ech in Hd2.
   inversion Hd2; subst xy2 ch2. clear Hd2.
   destruct Hsp as (Hx & Hy & Hp).
-  rewrite mread_cpu_state in Hdata by (try exact Hlay; lia). subst d. inversion H; subst c' w' s. clear H.
+  rewrite mread_cpu_state in Hdata by (try exact (Hlay _ Hkey); lia). subst d. inversion H; subst c' w' s. clear H.
   split; [exact Hm2|]. split.
   - split; [rewrite Hcn2, Hcn1; exact (proj1 Hc)|right; rewrite Hcb2; reflexivity].
   - unfold state_of, core_at. destruct (p <? 0) eqn:Ep; [apply Z.ltb_lt in Ep; lia|]. rewrite Ech.
